@@ -37,6 +37,17 @@ CLAIMED = {
         "doctitle/sectsubtitle transforms off; match_titles=True directives (Sphinx 'only') not generated.",
         "exhaustive level sequences + Hypothesis; reference-model (stack machine) + metamorphic (delete nested headings) oracles",
     ),
+    "C06": (
+        "Hypothesis block sequences X from the document grammar (no headings / thematic breaks) wrapped in 1-4 nested "
+        "admonition-type directives (10 names, backtick / colon fences, option block of either style or none, 0-2 blank "
+        "lines), in an include of a generated file, or in a block substitution, each optionally inside further "
+        "directives, with text after the wrapper that uses a footnote and a target defined inside X; metamorphic "
+        "oracle: pre-transform children of the innermost wrapper == nodes of X in place, and the published tree with the "
+        "wrappers spliced out == the published in-place tree (pformat, line / source masked); bounded search.",
+        "Position-dependent directives are not generated inside X; substitution X avoids Jinja delimiters; outer use "
+        "of a link reference definition made inside X is an open finding, replayed but not drawn.",
+        "Hypothesis grammar; metamorphic oracle (wrapped vs in-place rendering, before and after transforms)",
+    ),
     "C07": (
         "Exhaustive enumeration of all strings up to length 5 (quick) / 6 (thorough) over a 14-character "
         "YAML-significant alphabet, plus Hypothesis grammar-generated and mutated option blocks and (thorough) "
